@@ -86,6 +86,70 @@ def derived_objects(ctx, ops):
     ctx.note("derivation_programs_not_applicable", inapplicable)
 
 
+def numpy_level_layouts(ctx):
+    """the array-level functions (what the readers and the apply_ufunc wrappers call with raw buffers): the same 2-D spectrum handed
+    over C-contiguous, Fortran-contiguous, as a strided view and as the transpose of a (dir, freq) buffer gives the same result."""
+    from wavespectra.core import npstats
+    from wavespectra.core.utils import interp_spec
+    rng = np.random.RandomState(ctx.seed)
+    freq, dirs = S.FREQ.copy(), S.GRIDS[1].copy()
+    of, od = np.array([0.06, 0.1, 0.16, 0.22, 0.3, 0.38]), np.arange(5.0, 360.0, 30.0)
+
+    def layouts(a):
+        big = np.zeros((2 * a.shape[0], 2 * a.shape[1]))
+        v = big[::2, ::2]
+        v[...] = a
+        return {"fortran": np.asfortranarray(a), "strided": v, "transposed": np.ascontiguousarray(a.T).T, "float32": a.astype("float32")}
+    fns = {"interp_spec(freq, dir)": lambda a: interp_spec(a, freq, dirs, of, od),
+           "interp_spec(dir only)": lambda a: interp_spec(a, freq, dirs, None, od),
+           "interp_spec(freq only)": lambda a: interp_spec(a, freq, dirs, of, None),
+           "npstats.hs": lambda a: npstats.hs(a, freq, dirs),
+           "npstats.dm": lambda a: npstats.dm(a, dirs),
+           "npstats.mom1": lambda a: np.stack(npstats.mom1(a, dirs))}
+    for ver in (1, 2):
+        for t in range(S.NLEAD):
+            a = np.ascontiguousarray(S.base_values(ver)[t])
+            for name, fn in fns.items():
+                ref = np.asarray(fn(a), float)
+                for lname, b in layouts(a).items():
+                    ctx.case(("numpy-level", name, lname, ver, t), True)
+                    try:
+                        got = np.asarray(fn(b), float)
+                    except Exception as ex:  # noqa
+                        ctx.violation({"stage": "numpy-level", "fn": name, "layout": lname, "raised": type(ex).__name__},
+                                      "%s raised %s on a %s array (works on the C-contiguous one)" % (name, type(ex).__name__, lname), {"err": str(ex)[:200]})
+                        continue
+                    tol = 1e-5 if lname == "float32" else 1e-12
+                    if got.shape == ref.shape and np.allclose(got, ref, rtol=tol, atol=tol * max(1.0, float(np.abs(ref).max()))):
+                        ctx.replayed()
+                    else:
+                        ctx.violation({"stage": "numpy-level", "fn": name, "layout": lname},
+                                      "%s differs between a C-contiguous array and the same values stored %s (max abs difference %.3g)" %
+                                      (name, lname, float(np.abs(got - ref).max()) if got.shape == ref.shape else float("nan")))
+    # the multi-file SWAN reader with a direction regrid: what it reads must be what read_swan + interp gives for every file
+    import glob
+    import os
+    from harness.core import REPO
+    from wavespectra import read_swan
+    from wavespectra.input.swan import read_swans
+    f = os.path.join(REPO, "tests", "sample_files", "swanfile.spec")
+    tgt = np.arange(2.5, 360.0, 15.0)
+    ctx.case(("read_swans-int_dir",), True)
+    try:
+        one = read_swan(f)
+        many = read_swans([f], int_freq=False, int_dir=tgt)
+        ref = np.stack([[interp_spec(np.ascontiguousarray(one.efth.values[t, la, lo]), one.freq.values, one.dir.values, None, tgt) for la in range(one.sizes["lat"]) for lo in range(one.sizes["lon"])]
+                        for t in range(one.sizes["time"])])
+        got = many.efth.transpose("time", "site", "freq", "dir").values
+        if got.shape == ref.shape and np.allclose(got, ref, rtol=1e-9, atol=1e-12):
+            ctx.replayed()
+        else:
+            ctx.violation({"stage": "numpy-level", "fn": "read_swans(int_dir)"}, "read_swans(int_dir=...) differs from regridding each spectrum of read_swan as a C-contiguous array "
+                          "(max abs difference %.3g)" % (float(np.abs(got - ref).max()) if got.shape == ref.shape else float("nan")))
+    except Exception as ex:  # noqa
+        ctx.violation({"stage": "numpy-level", "fn": "read_swans(int_dir)", "raised": type(ex).__name__}, "read_swans(int_dir=...) raised %s: %s" % (type(ex).__name__, str(ex)[:200]))
+
+
 def run(ctx):
     setup_repo_imports()
     import warnings
@@ -185,6 +249,7 @@ def run(ctx):
                 ctx.violation({"op": op, "path": list(acts), "grid": "partial"},
                               "%s on a partial direction sector differs between the canonical representation and %s: %s" % (op, list(acts), diff), {"rep": rep})
     derived_objects(ctx, ops)
+    numpy_level_layouts(ctx)
     if programs:
         ctx.sample({"kind": "program", "actions": list(programs[len(programs) // 2][0]), "rep": programs[len(programs) // 2][1], "ops": ops[:6]})
     ctx.assume("energies are integer-valued (float32-exact) so a dtype cast does not change the contents; float32 results compared at 3e-5")
